@@ -151,6 +151,26 @@ func symRun(info *types.Info, stmts []ast.Stmt, env symEnv) (out symEnv, ret ast
 			}
 			return env, nil, false
 		case *ast.EmptyStmt:
+		case *ast.ForStmt:
+			// a counting loop over constants (for k := 1; k <= 32; k <<= 1 { … }) is unrolled: the same straight line
+			unrolled, ok := symUnroll(info, s)
+			if !ok {
+				return env, nil, false
+			}
+			id := s.Init.(*ast.AssignStmt).Lhs[0].(*ast.Ident)
+			obj := info.ObjectOf(id)
+			for _, v := range unrolled {
+				lit := &ast.BasicLit{Kind: token.INT, Value: itoa(v)}
+				info.Types[lit] = types.TypeAndValue{Type: info.TypeOf(id), Value: constant.MakeInt64(v)}
+				e2 := env.clone()
+				e2[obj] = lit
+				out2, _, ok := symRun(info, s.Body.List, e2)
+				if !ok {
+					return env, nil, false
+				}
+				delete(out2, obj)
+				env = out2
+			}
 		default:
 			return env, nil, false
 		}
@@ -159,3 +179,129 @@ func symRun(info *types.Info, stmts []ast.Stmt, env symEnv) (out symEnv, ret ast
 }
 
 var constantOne = constant.MakeInt64(1)
+
+// symUnroll: the values the counter of `for i := c0; i OP c1; step { body }` takes, when c0, c1 and the step are
+// constants, the body does not write i, and there are at most 64 iterations.
+func symUnroll(info *types.Info, f *ast.ForStmt) ([]int64, bool) {
+	as, ok := f.Init.(*ast.AssignStmt)
+	if !ok || as.Tok != token.DEFINE || len(as.Lhs) != 1 || len(as.Rhs) != 1 {
+		return nil, false
+	}
+	id, ok := as.Lhs[0].(*ast.Ident)
+	if !ok {
+		return nil, false
+	}
+	obj := info.ObjectOf(id)
+	cval := func(e ast.Expr) (int64, bool) {
+		tv, ok := info.Types[e]
+		if !ok || tv.Value == nil {
+			return 0, false
+		}
+		return constant.Int64Val(constant.ToInt(tv.Value))
+	}
+	cur, ok := cval(as.Rhs[0])
+	if !ok {
+		return nil, false
+	}
+	cond, ok := f.Cond.(*ast.BinaryExpr)
+	if !ok {
+		return nil, false
+	}
+	cid, ok := ast.Unparen(cond.X).(*ast.Ident)
+	if !ok || info.ObjectOf(cid) != obj {
+		return nil, false
+	}
+	lim, ok := cval(cond.Y)
+	if !ok {
+		return nil, false
+	}
+	holds := func(v int64) bool {
+		switch cond.Op {
+		case token.LSS:
+			return v < lim
+		case token.LEQ:
+			return v <= lim
+		case token.GTR:
+			return v > lim
+		case token.GEQ:
+			return v >= lim
+		case token.NEQ:
+			return v != lim
+		}
+		return false
+	}
+	var step func(v int64) (int64, bool)
+	switch p := f.Post.(type) {
+	case *ast.IncDecStmt:
+		if pid, ok := ast.Unparen(p.X).(*ast.Ident); !ok || info.ObjectOf(pid) != obj {
+			return nil, false
+		}
+		d := int64(1)
+		if p.Tok == token.DEC {
+			d = -1
+		}
+		step = func(v int64) (int64, bool) { return v + d, true }
+	case *ast.AssignStmt:
+		if len(p.Lhs) != 1 || len(p.Rhs) != 1 {
+			return nil, false
+		}
+		if pid, ok := ast.Unparen(p.Lhs[0]).(*ast.Ident); !ok || info.ObjectOf(pid) != obj {
+			return nil, false
+		}
+		c, ok := cval(p.Rhs[0])
+		if !ok {
+			return nil, false
+		}
+		switch p.Tok {
+		case token.ADD_ASSIGN:
+			step = func(v int64) (int64, bool) { return v + c, true }
+		case token.SUB_ASSIGN:
+			step = func(v int64) (int64, bool) { return v - c, true }
+		case token.MUL_ASSIGN:
+			step = func(v int64) (int64, bool) { return v * c, true }
+		case token.SHL_ASSIGN:
+			step = func(v int64) (int64, bool) { return v << uint(c), c >= 0 && c < 32 }
+		case token.SHR_ASSIGN:
+			step = func(v int64) (int64, bool) { return v >> uint(c), c >= 0 && c < 32 }
+		default:
+			return nil, false
+		}
+	default:
+		return nil, false
+	}
+	// the body does not write the counter
+	written := false
+	ast.Inspect(f.Body, func(n ast.Node) bool {
+		switch x := n.(type) {
+		case *ast.AssignStmt:
+			for _, l := range x.Lhs {
+				if lid, ok := ast.Unparen(l).(*ast.Ident); ok && info.ObjectOf(lid) == obj {
+					written = true
+				}
+			}
+		case *ast.IncDecStmt:
+			if lid, ok := ast.Unparen(x.X).(*ast.Ident); ok && info.ObjectOf(lid) == obj {
+				written = true
+			}
+		case *ast.BranchStmt:
+			written = true // break / continue: not a straight line
+		}
+		return !written
+	})
+	if written {
+		return nil, false
+	}
+	var out []int64
+	for holds(cur) {
+		out = append(out, cur)
+		if len(out) > 64 {
+			return nil, false
+		}
+		nx, ok := step(cur)
+		if !ok || nx == cur {
+			return nil, false
+		}
+		cur = nx
+	}
+	return out, true
+}
